@@ -88,6 +88,7 @@ def d2(ctx, F):
     pf = F.one_body(r"^selium::streams::pubsub::publisher::Publisher::<E, Item>::finish::\{closure#0\}$")
     bf = F.one_body(r"^selium_protocol::bistream::BiStream::finish::\{closure#0\}$")
     ctx.touch(pf, bf)
+    bf = F.inlined(bf, only=("selium_protocol::bistream::",))          # private async steps of finish() are looked through
     fb = pf.calls_to(PUB + "flush_batch")
     sf = pf.calls_to("selium_protocol::bistream::BiStream::finish")
     if PUB + "flush_batch" not in F.bodies:
@@ -304,6 +305,18 @@ def d3(ctx, F):
 
 
 def d4(ctx, F):
+    # a batch taken out of the MessageBatch is framed and handed to the transport in the same step: no `Pending` return (nor any other
+    # non-error return) lies between drain() and start_send — the drained messages would be dropped with the local frame
+    keepd = [p_ for p_ in F.bodies if p_.startswith(MB) or p_.startswith("<selium::batching")] + ["selium_protocol::utils::encode_message_batch"]
+    for meth in ("poll_ready", "poll_flush", "poll_close"):
+        pb = F.inlined(F.one_body(r"^<selium::streams::pubsub::publisher::Publisher<E, Item> as futures_sink::Sink<Item>>::%s$" % meth), keep=keepd)
+        drains = [c for c in pb.calls() if c.name() in ("drain", "take", "take_batch") and ("MessageBatch" in (c.self_ty or "") or "message_batch" in c.callee)]
+        sends = [c for c in pb.calls() if c.name() in ("start_send", "start_send_unpin")]
+        for dcall in drains:
+            after = flow.reach_avoiding(pb, [dcall.target] if dcall.target is not None else [], [c.bb for c in sends])
+            pend = [s_.get("span", pb.span) for i_, j_, pl_, rv_, s_ in pb.assigns() if i_ in after and rv_["k"] == "agg" and rv_.get("adt") == "core::task::poll::Poll" and rv_.get("variant") == "Pending"]
+            ctx.check(not pend, "C03.D4.drained-batch-sent", "publisher:%s:pending-after-drain" % meth,
+                      "Publisher::%s hands a drained batch to the transport before it can return Pending" % meth, (pend or [dcall.span])[0])
     bodies = [b for p, b in sorted(F.bodies.items()) if p.startswith(MB) or p.startswith("<selium::batching::message_batch::MessageBatch as ")]
     bodies += [F.body(x) for x in (PUB + "send_batch", PUB + "flush_batch", PUB + "send_single") if x in F.bodies or x == PUB + "send_batch"]
     for m in ("poll_ready", "start_send", "poll_flush", "poll_close"):
@@ -377,6 +390,11 @@ def d7(ctx, F):
 def run(ctx):
     F = ctx.facts("quick")
     K.socket_pass_through(ctx, F, "C03.D8")
+    # what the publisher framed is relayed: the wire decoder refuses no well-formed frame of either kind (C05.D1 decode-total), and the
+    # topic's router neither overwrites nor discards a frame it has taken (K1 / K13 of the pub/sub router)
+    from . import c05, routers
+    c05.try_from_table(ctx, F)
+    routers.report(ctx, F, "pubsub", "C03", lambda f: f.kind in ("K1", "K13"))
     d1(ctx, F)
     d2(ctx, F)
     d3(ctx, F)
